@@ -997,4 +997,169 @@ theorem elsFlow_exc_none (fs : FS) : ∀ (els : List ElSpec) (f : Flow), NoFille
     simp only [elsFlow, hx, Bool.false_eq_true, if_false] at h
     exact elsFlow_exc_none fs els f (fun c' rc' hc => nf c' rc' (by simp [hc])) h
 
+/-! ## Temporary files -/
+
+/-- every dump generator is suspended, or dead with its temporary file gone -/
+def Settled (fs : FS) : List Upper → Prop
+  | [] => True
+  | .map _ _ _ _ _ :: us => Settled fs us
+  | .dump c st :: us => (st = .active ∨ (st = .dead ∧ (fs c).tmp = none)) ∧ Settled fs us
+
+theorem Settled_congr {fs1 fs2 : FS} : ∀ (us : List Upper), (∀ c, c ∈ dumpIds us → (fs1 c).tmp = (fs2 c).tmp) →
+    Settled fs1 us → Settled fs2 us
+  | [], _, _ => trivial
+  | .map _ _ _ _ _ :: us, h, s => Settled_congr (fs1 := fs1) us (fun c hc => h c (by simpa [dumpIds] using hc)) (by simpa [Settled] using s)
+  | .dump c st :: us, h, s => by
+    obtain ⟨s1, s2⟩ := s
+    refine ⟨?_, Settled_congr us (fun d hd => h d (by simp [dumpIds, hd])) s2⟩
+    rw [← h c (by simp [dumpIds])]
+    exact s1
+
+theorem UsOk.nodup {fs : FS} : ∀ (us : List Upper), UsOk fs us → (dumpIds us).Nodup
+  | [], _ => List.nodup_nil
+  | .map _ _ _ _ _ :: us, ok => UsOk.nodup us ok.2
+  | .dump _ _ :: us, ok => List.nodup_cons.mpr ⟨ok.2.1, UsOk.nodup us ok.2.2.2⟩
+
+/-- after a pull no dump generator is fresh any more, and those that died have removed or renamed their
+temporary file -/
+theorem nextUppers_settled : ∀ (us : List Upper) (fs : FS) (b : Bottom), UsOk fs us → BotOk b →
+    Settled (nextUppers fs us b).2.2.1 (nextUppers fs us b).2.2.2.1
+  | [], fs, b, _, _ => by simp [nextUppers, Settled]
+  | .map j a calls r dead :: us, fs, b, ok, okb => by
+    obtain ⟨rfl, ok'⟩ := ok
+    have ih := nextUppers_settled us fs b ok' okb
+    rcases hn : nextUppers fs us b with ⟨res0, evs0, fs0, us0, b0⟩
+    rw [hn] at ih
+    simp only [nextUppers, hn]
+    cases res0 with
+    | item v =>
+      simp only [mapAfter]
+      split <;> exact ih
+    | done => exact ih
+    | raised e => exact ih
+  | .dump c .dead :: us, fs, b, ok, _ => absurd rfl ok.1
+  | .dump c st :: us, fs, b, ok, okb => by
+    obtain ⟨hst, hc, _, ok'⟩ := ok
+    -- the file system on which the upstream is pulled
+    have key : ∀ fs1 : FS, UsOk fs1 us →
+        Settled (dumpAfter c (nextUppers fs1 us b)).2.2.1 (dumpAfter c (nextUppers fs1 us b)).2.2.2.1 := by
+      intro fs1 ok1
+      have ih := nextUppers_settled us fs1 b ok1 okb
+      rcases hn : nextUppers fs1 us b with ⟨res0, evs0, fs0, us0, b0⟩
+      rw [hn] at ih
+      have hids : dumpIds us0 = dumpIds us := (nextUppers_spec us fs1 b ok1 okb _ _ _ _ _ hn).2.1
+      have hc0 : c ∉ dumpIds us0 := by rw [hids]; exact hc
+      have other : ∀ (fs' : FS), (∀ d, d ≠ c → fs' d = fs0 d) → Settled fs' us0 := by
+        intro fs' h
+        exact Settled_congr us0 (fun d hd => by rw [h d (fun e => hc0 (e ▸ hd))]) ih
+      cases res0 with
+      | item v =>
+        simp only [dumpAfter]
+        exact ⟨Or.inl rfl, other _ (fun d hd => by simp [hd])⟩
+      | done =>
+        simp only [dumpAfter]
+        cases ht : (fs0 c).tmp with
+        | none =>
+          rw [FS.replaceTmp_none ht]
+          exact ⟨Or.inr ⟨rfl, ht⟩, ih⟩
+        | some xs =>
+          rw [FS.replaceTmp_some ht]
+          exact ⟨Or.inr ⟨rfl, by simp⟩, other _ (fun d hd => by simp [hd])⟩
+      | raised e =>
+        simp only [dumpAfter]
+        exact ⟨Or.inr ⟨rfl, by simp⟩, other _ (fun d hd => by simp [hd])⟩
+    cases st with
+    | dead => exact absurd rfl hst
+    | fresh =>
+      simp only [nextUppers]
+      exact key _ (UsOk_congr us (fun d hd => by
+        have : d ≠ c := fun e => hc (e ▸ hd)
+        simp [this]) ok')
+    | active =>
+      simp only [nextUppers]
+      exact key _ ok'
+
+/-- after at least one pull the dump generators of the chain are settled -/
+theorem drive_settled : ∀ (k : Nat) (fs : FS) (ch : Chain), ChainOk fs ch →
+    Settled (drive (k + 1) fs ch).fs (drive (k + 1) fs ch).chain.uppers
+  | k, fs, ch, ok => by
+    obtain ⟨us, b⟩ := ch
+    obtain ⟨oku, okb⟩ := ok
+    have st := nextUppers_settled us fs b oku okb
+    rcases hn : nextUppers fs us b with ⟨res, evs, fs', us', b'⟩
+    rw [hn] at st
+    have hnext : next fs ⟨us, b⟩ = (res, evs, fs', ⟨us', b'⟩) := by simp [next, hn]
+    obtain ⟨_, _, hi, hd, hr⟩ := nextUppers_spec us fs b oku okb _ _ _ _ _ hn
+    cases res with
+    | item v =>
+      cases k with
+      | zero => simp only [drive, hnext]; exact st
+      | succ k =>
+        -- the chain is still healthy after an item
+        rcases hF : remUs us (remB fs b) with ⟨xs, e⟩
+        rw [hF] at hi hd hr
+        cases xs with
+        | nil =>
+          cases e with
+          | none => exact absurd (hd rfl rfl).1 (by simp)
+          | some e => exact absurd (hr e rfl rfl).1 (by simp)
+        | cons v' rest =>
+          obtain ⟨_, ok', okb', _⟩ := hi v' rest rfl
+          have ih := drive_settled k fs' ⟨us', b'⟩ ⟨ok', okb'⟩
+          rw [drive, hnext]
+          exact ih
+    | done => simp only [drive, hnext]; exact st
+    | raised e => simp only [drive, hnext]; exact st
+
+/-- finalising a settled chain removes the temporary file of every dump generator -/
+theorem closeUppers_settled : ∀ (us : List Upper) (fs : FS), Settled fs us → (dumpIds us).Nodup →
+    ∀ c, c ∈ dumpIds us → ((closeUppers fs us).1 c).tmp = none
+  | [], _, _, _, c, hc => by simp [dumpIds] at hc
+  | .map _ _ _ _ _ :: us, fs, s, nd, c, hc => by
+    simp only [closeUppers]
+    exact closeUppers_settled us fs (by simpa [Settled] using s) (by simpa [dumpIds] using nd) c (by simpa [dumpIds] using hc)
+  | .dump c' st :: us, fs, s, nd, c, hc => by
+    obtain ⟨s1, s2⟩ := s
+    simp only [dumpIds, List.nodup_cons] at nd
+    simp only [closeUppers]
+    have s2' : Settled (if st = .active then fs.removeTmp c' else fs) us := by
+      split
+      · exact Settled_congr us (fun d hd => by
+          have : d ≠ c' := fun e => nd.1 (e ▸ hd)
+          simp [this]) s2
+      · exact s2
+    simp only [dumpIds, List.mem_cons] at hc
+    rcases hc with rfl | hc
+    · rw [(closeUppers_spec us _).2 c nd.1]
+      rcases s1 with rfl | ⟨rfl, h⟩
+      · simp
+      · simpa using h
+    · exact closeUppers_settled us _ s2' nd.2 c hc
+
+/-- no dump generator of the chain is suspended -/
+def NoActive : List Upper → Prop
+  | [] => True
+  | .map _ _ _ _ _ :: us => NoActive us
+  | .dump _ st :: us => st ≠ .active ∧ NoActive us
+
+theorem closeUppers_noActive : ∀ (us : List Upper) (fs : FS), NoActive us → (closeUppers fs us).1 = fs
+  | [], _, _ => rfl
+  | .map _ _ _ _ _ :: us, fs, h => by
+    simp only [closeUppers]
+    exact closeUppers_noActive us fs (by simpa [NoActive] using h)
+  | .dump c st :: us, fs, h => by
+    simp only [closeUppers, h.1, if_false]
+    exact closeUppers_noActive us fs h.2
+
+theorem buildEls_noActive (fs : FS) : ∀ (els : List ElSpec) (j : Nat) (ch : Chain), NoActive ch.uppers →
+    NoActive (buildEls fs j els ch).uppers
+  | [], _, _, h => h
+  | .map a r :: els, j, ch, h => by
+    rw [buildEls]; exact buildEls_noActive fs els _ _ (by simpa [NoActive] using h)
+  | .cache c rc :: els, j, ch, h => by
+    rw [buildEls]
+    split
+    · exact buildEls_noActive fs els _ _ trivial
+    · exact buildEls_noActive fs els _ _ ⟨by simp, h⟩
+
 end Lena.C18
